@@ -405,6 +405,33 @@ def run_property(prop, tier, seed, verbose=False, write_evidence=True):
 
     # ---- vacuity / soundness guards
     errors = list(run.engine_errors)
+    if errors and code_changed:
+        # the engine cannot apply to the EDITED code (construct outside the subset): the proof is lost for these
+        # functions; fall back to the bounded tier = concrete search with the same executable contract
+        from .contracts import Contract
+        class _FakeVC:
+            pass
+        for owner, msg in zip(run.engine_error_owners, run.engine_errors):
+            fv = _FakeVC()
+            fv.oid = "proof-lost/%s" % (owner.label if hasattr(owner, "label") else owner)
+            fv.owner = owner.label
+            fv.result = {}
+            fv.meta = {}
+            wit = try_replay(run, fv, rng, 400 if tier == "quick" else 4000)
+            if wit is not None:
+                os.makedirs(replay_dir, exist_ok=True)
+                path = os.path.join(replay_dir, fv.oid.replace("/", "__").replace(":", "_")[:150] + ".json")
+                json.dump({"property": prop, "obligation": fv.oid, "owner": owner.label, "clause": "contract of %s (proof lost: %s)" % (owner.label, msg),
+                           "solver": {"status": "engine-not-applicable", "reason": msg}, "witness_kind": wit["witness_kind"],
+                           "inputs": jsonable(wit["inputs"]), "detail": jsonable(wit["detail"]), "tier": tier, "seed": seed},
+                          open(path, "w"), indent=1)
+                violations.append((fv.oid, path, True))
+                lines.append("VIOLATION property=%s replay=%s obligation=%s" % (prop, path, fv.oid))
+            else:
+                run.proof_lost.append("%s (%s)" % (owner.label, msg))
+                lines.append("NOTE proof-lost property=%s function=%s reason=%s (bounded contract search found no violation)"
+                             % (prop, owner.label, msg[:160]))
+        errors = []
     if not normal:
         errors.append("zero obligations generated")
     if canary_bad and not violations:
